@@ -26,7 +26,15 @@ def camel(n):
     return "".join(p[:1].upper() + p[1:].lower() for p in re.split(r"_+|(?<=[a-z0-9])(?=[A-Z])", n) if p)
 
 
+GQL_NAME = re.compile(r"^[_A-Za-z][_0-9A-Za-z]*$")
+
+
 def respell(n):
+    r = _respell(n)
+    return r if r and GQL_NAME.match(r) else None
+
+
+def _respell(n):
     """the same words in another case style (an alias that only re-spells its field): snake_case for names
     that are not snake_case, lowerCamelCase / Capitalised otherwise; None if there is no other spelling"""
     sn = snake(n)
